@@ -69,7 +69,7 @@ def strip_lean_comments(text):
 def reachable_lean_files():
     """the files of the deliverable: everything imported (transitively) from the library
     root and the driver roots; work-in-progress files that nothing imports are not part of it"""
-    roots = [f for f in ("Wormhole.lean", "Main.lean", "DbMain.lean", "RegMain.lean", "Wormhole/Tie/All.lean", "Wormhole/Tie/WsReject.lean", "Wormhole/Tie/WsBody.lean") if os.path.exists(os.path.join(LEAN, f))]
+    roots = [f for f in ("Wormhole.lean", "Main.lean", "DbMain.lean", "RegMain.lean", "Wormhole/Tie/All.lean", "Wormhole/Tie/WsReject.lean", "Wormhole/Tie/WsBody.lean", "Wormhole/Tie/WsTop.lean") if os.path.exists(os.path.join(LEAN, f))]
     seen, todo = set(), list(roots)
     while todo:
         f = todo.pop()
